@@ -15,6 +15,12 @@ mod queries;
 mod shapes;
 mod world;
 
+// every allocation of the process (gecs' hand-made arrays included) goes through the checking
+// allocator; Miri checks layouts itself
+#[cfg(not(miri))]
+#[global_allocator]
+static ALLOC: alloc_check::Checking = alloc_check::Checking;
+
 use comps::*;
 use gecs::prelude::*;
 use queries::*;
@@ -225,6 +231,18 @@ macro_rules! probe_key {
     }};
 }
 
+/// every archetype-level dynamic path of ANOTHER archetype than the key's own
+macro_rules! probe_other {
+    ($out:ident, $w:ident, $B:ident, $k:expr) => {{
+        let k = $k;
+        $out.push(format!("oc={}", match guard(|| <$B as ArchX>::of($w).contains(k)) { Ok(b) => (b as u8).to_string(), Err(c) => format!("!{}", c) }));
+        $out.push(format!("or={}", opt(guard(|| <$B as ArchX>::of($w).resolve(k)), |i| i.to_string())));
+        $out.push(format!("od={}", opt(guard(|| <$B as ArchX>::of($w).to_direct(k)), |d| fmt_dir(d))));
+        $out.push(format!("ov={}", opt(guard(|| <$B as ArchX>::of_mut($w).view(k).map(|v| (fmt_any((*v.entity).into()), v.index(), <$B as ArchX>::view_row(&v)))), |(e, i, r)| format!("{}@{}:{}", e, i, fmt_row(&r)))));
+        $out.push(format!("ob={}", opt(guard(|| <$B as ArchX>::of($w).borrow(k).map(|b| (fmt_any((*b.entity()).into()), b.index(), <$B as ArchX>::borrow_row(&b)))), |(e, i, r)| format!("{}@{}:{}", e, i, fmt_row(&r)))));
+    }};
+}
+
 impl St {
     pub fn new() -> St {
         St { worlds: vec![Some(Wa::new())], cur: 0, hs: HashMap::new(), wb: other::Wb::new(), info: Vec::new() }
@@ -246,6 +264,9 @@ impl St {
         let mut obs = obs;
         if !errs.is_empty() {
             obs.push_str(&format!(" REGISTRY-ERROR[{}]", errs.join("; ")));
+        }
+        if let Some(m) = alloc_check::take() {
+            obs.push_str(&format!(" ALLOC-ERROR[{}]", m));
         }
         let mut out = match self.w() {
             Some(w) => format!("{} # {}", obs, summary(w)),
@@ -305,7 +326,7 @@ impl St {
                             seal();
                             match r {
                                 Ok(e) => Ok(e.into_any()),
-                                Err(c) => Err(<A as ArchX>::comps_row(&c)),
+                                Err(c) => Err(<A as ArchX>::comps_row(c)),
                             }
                         } else {
                             let e = if world_level { w.create::<A>(comps) } else { <A as ArchX>::of_mut(w).create(comps) };
@@ -350,7 +371,7 @@ impl St {
                                 let k = typed_ent::<A>(any);
                                 let r = if world_level { w.destroy(k) } else { <A as ArchX>::of_mut(w).destroy(k) };
                                 seal();
-                                r.map(|c| Some(<A as ArchX>::comps_row(&c)))
+                                r.map(|c| Some(<A as ArchX>::comps_row(c)))
                             } else if world_level {
                                 let r = w.destroy(any).map(|_| None);
                                 seal();
@@ -358,7 +379,7 @@ impl St {
                             } else {
                                 let r = <A as ArchX>::of_mut(w).destroy(any);
                                 seal();
-                                r.map(|c| Some(<A as ArchX>::comps_row(&c)))
+                                r.map(|c| Some(<A as ArchX>::comps_row(c)))
                             }
                         }))
                     }
@@ -369,7 +390,7 @@ impl St {
                                 let k = typed_dir::<A>(any);
                                 let r = if world_level { w.destroy(k) } else { <A as ArchX>::of_mut(w).destroy(k) };
                                 seal();
-                                r.map(|c| Some(<A as ArchX>::comps_row(&c)))
+                                r.map(|c| Some(<A as ArchX>::comps_row(c)))
                             } else if world_level {
                                 let r = w.destroy(any).map(|_| None);
                                 seal();
@@ -377,7 +398,7 @@ impl St {
                             } else {
                                 let r = <A as ArchX>::of_mut(w).destroy(any);
                                 seal();
-                                r.map(|c| Some(<A as ArchX>::comps_row(&c)))
+                                r.map(|c| Some(<A as ArchX>::comps_row(c)))
                             }
                         }))
                     }
@@ -452,9 +473,7 @@ impl St {
                             }
                             probe_key!(out, w, A, "y", any, dynamic);
                         });
-                        dispatch!(other, B => {
-                            out.push(format!("oc={}", match guard(|| <B as ArchX>::of(w).contains(any)) { Ok(b) => (b as u8).to_string(), Err(c) => format!("!{}", c) }));
-                        });
+                        dispatch!(other, B => probe_other!(out, w, B, any));
                     }
                     H::Dir { a, any } => {
                         let other = (a + 1) % NARCH;
@@ -465,9 +484,7 @@ impl St {
                             }
                             probe_key!(out, w, A, "y", any, dynamic);
                         });
-                        dispatch!(other, B => {
-                            out.push(format!("oc={}", match guard(|| <B as ArchX>::of(w).contains(any)) { Ok(b) => (b as u8).to_string(), Err(c) => format!("!{}", c) }));
-                        });
+                        dispatch!(other, B => probe_other!(out, w, B, any));
                     }
                 }
                 out.join(" ")
@@ -533,6 +550,7 @@ impl St {
                     if !same(&<A as ArchX>::rows_iter_mut(x, None)) { diff.push("iter_mut"); }
                     if !same(&<A as ArchX>::rows_all_slices(x, None)) { diff.push("get_all_slices_mut"); }
                     if x.len() != rows.len() { diff.push("len"); }
+                    for b in <A as ArchX>::iter_laws(x) { diff.push(b); }
                     diff.dedup();
                     format!("rows {} paths={}", rows.iter().map(|(e, r)| format!("{}:{}", fmt_any(*e), fmt_row(r))).collect::<Vec<_>>().join("|"),
                         if diff.is_empty() { "ok".to_string() } else { format!("DIFF:{}", diff.join("+")) })
@@ -1042,6 +1060,19 @@ pub fn header() -> String {
     s
 }
 
+/// Worlds still alive at the end of a sequence are dropped with the interpreter state; a layout
+/// mismatch in THAT drop is reported as a line of its own (unknown to the model: only ever printed
+/// on a violation).
+fn drop_state(st: Option<St>) {
+    let had = st.is_some();
+    drop(st);
+    if had {
+        if let Some(m) = alloc_check::take() {
+            println!("alloc-check => ALLOC-ERROR[{}] # dropped", m);
+        }
+    }
+}
+
 fn main() {
     std::panic::set_hook(Box::new(|info| {
         if GUARD_DEPTH.with(|d| d.get()) == 0 {
@@ -1065,7 +1096,7 @@ fn main() {
                     continue;
                 }
                 if line.starts_with("seq ") {
-                    drop(st.take());
+                    drop_state(st.take());
                     reg_reset();
                     st = Some(St::new());
                     println!("{}", line);
@@ -1085,6 +1116,7 @@ fn main() {
                 let obs = st.as_mut().unwrap().exec(op);
                 println!("{}", obs);
             }
+            drop_state(st.take());
         }
         Some("decs") => {
             // C07: EVERY decision string over {c,d,b,x} up to length nmax, on one archetype (family A,
@@ -1133,6 +1165,7 @@ fn main() {
                     let obs = st.exec(&op);
                     println!("{}", obs);
                 }
+                drop_state(Some(st));
             };
             fn strings(n: usize) -> Vec<String> {
                 let mut out = vec![String::new()];
@@ -1172,6 +1205,7 @@ fn main() {
                 let s = seed.wrapping_mul(0x9E3779B97F4A7C15).wrapping_add(i as u64);
                 println!("seq {} seed={} profile={}", i, s, profile);
                 gen::run_sequence(&mut st, s, maxops, profile);
+                drop_state(Some(st));
             }
         }
         _ => {
